@@ -1,25 +1,1340 @@
-//! C12 — not built yet (stub).
+//! C12 — aggregations are exact and independent of segmentation.
+//!
+//! One case = a corpus, 3–5 segment layouts of that corpus (one segment … one document per
+//! segment, with stale versions / deleted ghosts mixed in), a query and an aggregation tree.
+//!
+//! * finder (implementation only): the aggregation response of every layout equals an
+//!   independent computation in Rust over the matched live documents (`oracle`), hence the
+//!   layouts equal each other.  Each mismatch is attributed to the shallowest aggregation node
+//!   whose own data differ and classified by a predicate checked on the failing case.
+//! * correspondence: `SL.Aggs.run` (collect per segment → merge → finalize) vs the
+//!   implementation for every layout; `SL.Aggs.Spec.agg` vs the Rust oracle.
+use crate::idx;
 use crate::proto::Driver;
 use crate::rng::Rng;
 use crate::summary::Summary;
+use crate::util::scratch;
 use crate::{Prop, Tier};
-use serde_json::{json, Value};
+use serde_json::{json, Map, Value};
+use std::collections::{BTreeMap, BTreeSet};
 
-pub struct Stub;
-pub static P: Stub = Stub;
+pub struct C12;
+pub static P: C12 = C12;
 
-impl Prop for Stub {
+pub const KW_FIELDS: [&str; 2] = ["k1", "k2"];
+pub const I64_FIELDS: [&str; 2] = ["i1", "i2"];
+pub const F64_FIELDS: [&str; 2] = ["f1", "f2"];
+pub const KW_VALUES: [&str; 6] = ["a", "b", "c", "d", "e", "f"];
+const REL: f64 = 1e-9;
+
+pub fn schema_json() -> Value {
+  let kw: Vec<Value> = KW_FIELDS.iter().map(|n| json!({"name": n, "stored": true, "indexed": true, "fast": true, "nullable": false})).collect();
+  let mut num: Vec<Value> = Vec::new();
+  for n in I64_FIELDS {
+    num.push(json!({"name": n, "i64": true, "fast": true, "stored": true, "nullable": false}));
+  }
+  for n in F64_FIELDS {
+    num.push(json!({"name": n, "i64": false, "fast": true, "stored": true, "nullable": false}));
+  }
+  json!({"doc_id_field": "_id", "text_fields": [], "keyword_fields": kw, "numeric_fields": num})
+}
+
+pub fn field_kinds() -> Value {
+  let mut m = Map::new();
+  for f in KW_FIELDS {
+    m.insert(f.to_string(), json!("kw"));
+  }
+  for f in I64_FIELDS {
+    m.insert(f.to_string(), json!("i64"));
+  }
+  for f in F64_FIELDS {
+    m.insert(f.to_string(), json!("f64"));
+  }
+  Value::Object(m)
+}
+
+pub fn is_i64(f: &str) -> bool {
+  I64_FIELDS.contains(&f)
+}
+pub fn is_kw(f: &str) -> bool {
+  KW_FIELDS.contains(&f)
+}
+
+// ------------------------------------------------------------------ documents
+
+#[derive(Clone, Debug)]
+pub struct Doc {
+  pub id: String,
+  pub kw: BTreeMap<String, Vec<String>>,
+  pub num: BTreeMap<String, Vec<f64>>,
+}
+
+pub fn parse_doc(v: &Value) -> Doc {
+  let mut d = Doc { id: v["_id"].as_str().unwrap_or("").to_string(), kw: BTreeMap::new(), num: BTreeMap::new() };
+  for f in KW_FIELDS {
+    let vals: Vec<String> = match &v[f] {
+      Value::String(s) => vec![s.clone()],
+      Value::Array(a) => a.iter().filter_map(|x| x.as_str().map(|s| s.to_string())).collect(),
+      _ => vec![],
+    };
+    d.kw.insert(f.to_string(), vals);
+  }
+  for f in I64_FIELDS.iter().chain(F64_FIELDS.iter()) {
+    let vals: Vec<f64> = match &v[*f] {
+      Value::Number(n) => vec![n.as_f64().unwrap_or(0.0)],
+      Value::Array(a) => a.iter().filter_map(|x| x.as_f64()).collect(),
+      _ => vec![],
+    };
+    d.num.insert(f.to_string(), vals);
+  }
+  d
+}
+
+impl Doc {
+  pub fn kws(&self, f: &str) -> &[String] {
+    self.kw.get(f).map(|v| v.as_slice()).unwrap_or(&[])
+  }
+  pub fn nums(&self, f: &str) -> &[f64] {
+    self.num.get(f).map(|v| v.as_slice()).unwrap_or(&[])
+  }
+  pub fn nums_or(&self, f: &str, missing: Option<f64>) -> Vec<f64> {
+    let v = self.nums(f);
+    if v.is_empty() {
+      missing.into_iter().collect()
+    } else {
+      v.to_vec()
+    }
+  }
+  /// the model's view of the document
+  pub fn model_json(&self, ord: usize) -> Value {
+    json!({"id": ord, "kw": self.kw, "num": self.num})
+  }
+}
+
+fn quarter(rng: &mut Rng, lo: i64, hi: i64) -> f64 {
+  rng.range(lo * 4, hi * 4) as f64 / 4.0
+}
+
+pub fn gen_doc(rng: &mut Rng, id: String) -> Value {
+  let mut m = Map::new();
+  m.insert("_id".into(), json!(id));
+  // skewed keyword choice so that some keys are frequent and some rare
+  let mut kwv = |rng: &mut Rng| -> String {
+    let r = rng.below(12);
+    KW_VALUES[match r {
+      0..=3 => 0,
+      4..=6 => 1,
+      7..=8 => 2,
+      9 => 3,
+      10 => 4,
+      _ => 5,
+    }]
+    .to_string()
+  };
+  if !rng.chance(1, 5) {
+    m.insert("k1".into(), json!(kwv(rng)));
+  }
+  match rng.below(5) {
+    0 => {}
+    1 => {
+      m.insert("k2".into(), json!(kwv(rng)));
+    }
+    _ => {
+      let n = 1 + rng.below(3);
+      let vs: Vec<String> = (0..n).map(|_| kwv(rng)).collect();
+      m.insert("k2".into(), json!(vs));
+    }
+  }
+  if !rng.chance(1, 6) {
+    m.insert("i1".into(), json!(rng.range(-4, 20)));
+  }
+  match rng.below(4) {
+    0 => {}
+    1 => {
+      m.insert("i2".into(), json!(rng.range(-4, 20)));
+    }
+    _ => {
+      let n = 1 + rng.below(3);
+      let vs: Vec<i64> = (0..n).map(|_| rng.range(-4, 20)).collect();
+      m.insert("i2".into(), json!(vs));
+    }
+  }
+  if !rng.chance(1, 6) {
+    m.insert("f1".into(), json!(quarter(rng, -3, 12)));
+  }
+  match rng.below(4) {
+    0 => {}
+    1 => {
+      m.insert("f2".into(), json!(quarter(rng, -3, 12)));
+    }
+    _ => {
+      let n = 1 + rng.below(3);
+      let vs: Vec<f64> = (0..n).map(|_| quarter(rng, -3, 12)).collect();
+      m.insert("f2".into(), json!(vs));
+    }
+  }
+  Value::Object(m)
+}
+
+// ------------------------------------------------------------------ aggregation generator
+
+fn pick_num_field(rng: &mut Rng) -> &'static str {
+  *rng.pick(&["i1", "i2", "f1", "f2"])
+}
+fn pick_kw_field(rng: &mut Rng) -> &'static str {
+  *rng.pick(&KW_FIELDS)
+}
+
+fn num_missing(rng: &mut Rng, f: &str) -> Value {
+  if rng.chance(1, 4) {
+    if is_i64(f) {
+      json!(rng.range(-2, 9))
+    } else {
+      json!(quarter(rng, -2, 9))
+    }
+  } else {
+    Value::Null
+  }
+}
+
+fn gen_filter(rng: &mut Rng, depth: usize) -> Value {
+  match rng.below(if depth == 0 { 3 } else { 6 }) {
+    0 => json!({"KeywordEq": {"field": pick_kw_field(rng), "value": *rng.pick(&KW_VALUES)}}),
+    1 => {
+      let f = *rng.pick(&I64_FIELDS);
+      let lo = rng.range(-4, 12);
+      json!({"I64Range": {"field": f, "min": lo, "max": lo + rng.range(0, 12)}})
+    }
+    2 => {
+      let f = *rng.pick(&F64_FIELDS);
+      let lo = quarter(rng, -3, 8);
+      json!({"F64Range": {"field": f, "min": lo, "max": lo + quarter(rng, 0, 8)}})
+    }
+    3 => json!({"And": [gen_filter(rng, depth - 1), gen_filter(rng, depth - 1)]}),
+    4 => json!({"Or": [gen_filter(rng, depth - 1), gen_filter(rng, depth - 1)]}),
+    _ => json!({"Not": gen_filter(rng, depth - 1)}),
+  }
+}
+
+fn with_subs(rng: &mut Rng, mut agg: Value, depth: usize, risky: bool) -> Value {
+  if depth < 3 && rng.chance(3, 5) {
+    let n = 1 + rng.below(2);
+    let mut m = Map::new();
+    for i in 0..n {
+      m.insert(format!("s{i}"), gen_agg(rng, depth + 1, risky));
+    }
+    agg["aggs"] = Value::Object(m);
+  }
+  agg
+}
+
+/// `risky`: parameters known to trigger the per-segment threshold defects may be generated
+pub fn gen_agg(rng: &mut Rng, depth: usize, risky: bool) -> Value {
+  // leaves are more likely deeper in the tree
+  let leaf = depth >= 3 || rng.chance(if depth == 1 { 2 } else { 5 }, 10);
+  if leaf {
+    return match rng.below(7) {
+      0 => {
+        let f = pick_num_field(rng);
+        json!({"type": "stats", "field": f, "missing": num_missing(rng, f)})
+      }
+      1 => {
+        let f = pick_num_field(rng);
+        json!({"type": "extended_stats", "field": f, "missing": num_missing(rng, f)})
+      }
+      2 => {
+        let f = pick_num_field(rng);
+        json!({"type": "value_count", "field": f, "missing": num_missing(rng, f)})
+      }
+      3 => {
+        if rng.chance(1, 2) {
+          let f = pick_kw_field(rng);
+          let m = if rng.chance(1, 4) { json!(*rng.pick(&["a", "zz"])) } else { Value::Null };
+          json!({"type": "cardinality", "field": f, "missing": m})
+        } else {
+          let f = pick_num_field(rng);
+          json!({"type": "cardinality", "field": f, "missing": num_missing(rng, f)})
+        }
+      }
+      4 => {
+        let f = pick_num_field(rng);
+        let mut a = json!({"type": "percentiles", "field": f, "missing": num_missing(rng, f)});
+        if rng.chance(2, 3) {
+          let n = 1 + rng.below(4);
+          let ps: Vec<f64> = (0..n).map(|_| *rng.pick(&[0.0, 1.0, 10.0, 25.0, 50.0, 75.0, 90.0, 99.0, 100.0, 33.5])).collect();
+          a["percents"] = json!(ps);
+        }
+        a
+      }
+      5 => {
+        let f = pick_num_field(rng);
+        let n = 1 + rng.below(3);
+        let ts: Vec<f64> = (0..n).map(|_| quarter(rng, -4, 14)).collect();
+        json!({"type": "percentile_ranks", "field": f, "values": ts, "missing": num_missing(rng, f)})
+      }
+      _ => {
+        let f = pick_num_field(rng);
+        json!({"type": "stats", "field": f, "missing": Value::Null})
+      }
+    };
+  }
+  match rng.below(if risky { 8 } else { 7 }) {
+    0 | 1 => {
+      let f = pick_kw_field(rng);
+      let mut a = json!({"type": "terms", "field": f});
+      if rng.chance(1, 3) {
+        a["missing"] = json!(*rng.pick(&["none", "a", "zz"]));
+      }
+      if rng.chance(1, 4) {
+        a["min_doc_count"] = json!(rng.below(2)); // 0 or 1: harmless
+      }
+      if risky && rng.chance(1, 3) {
+        if rng.chance(1, 2) {
+          a["min_doc_count"] = json!(2 + rng.below(2));
+        } else {
+          a["size"] = json!(1 + rng.below(3));
+        }
+      }
+      with_subs(rng, a, depth, risky)
+    }
+    2 => {
+      let f = pick_num_field(rng);
+      let n = 1 + rng.below(4);
+      let mut ranges: Vec<Value> = Vec::new();
+      let mut seen = BTreeSet::new();
+      for i in 0..n {
+        let lo = quarter(rng, -4, 10);
+        let hi = lo + quarter(rng, 0, 8);
+        let (from, to) = match rng.below(6) {
+          0 => (Value::Null, json!(hi)),
+          1 => (json!(lo), Value::Null),
+          _ => (json!(lo), json!(hi)),
+        };
+        let mut r = json!({"from": from, "to": to});
+        if rng.chance(1, 2) {
+          r["key"] = json!(format!("r{i}"));
+        }
+        // bucket keys must be distinct (the merge is by key string); duplicates are skipped
+        let ks = range_key(&r).to_string();
+        if seen.insert(ks) {
+          ranges.push(r);
+        }
+      }
+      let a = json!({"type": "range", "field": f, "keyed": rng.chance(1, 4), "ranges": ranges, "missing": num_missing(rng, f)});
+      with_subs(rng, a, depth, risky)
+    }
+    3 => {
+      let f = pick_num_field(rng);
+      let interval = *rng.pick(&[0.5, 1.0, 2.0, 2.5, 5.0, 10.0]);
+      let mut a = json!({"type": "histogram", "field": f, "interval": interval, "missing": num_missing(rng, f)});
+      if rng.chance(1, 3) {
+        a["offset"] = json!(*rng.pick(&[0.25, 0.5, 1.0, -0.5]));
+      }
+      match rng.below(6) {
+        0 => {
+          let lo = quarter(rng, -6, 6);
+          a["extended_bounds"] = json!({"min": lo, "max": lo + quarter(rng, 0, 12)});
+        }
+        1 => {
+          let lo = quarter(rng, -3, 6);
+          a["hard_bounds"] = json!({"min": lo, "max": lo + quarter(rng, 0, 10)});
+        }
+        2 => {
+          let lo = quarter(rng, -3, 3);
+          let hi = lo + quarter(rng, 4, 12);
+          a["hard_bounds"] = json!({"min": lo, "max": hi});
+          a["extended_bounds"] = json!({"min": lo + 1.0, "max": hi - 1.0});
+        }
+        _ => {}
+      }
+      if rng.chance(1, 4) {
+        a["min_doc_count"] = json!(rng.below(2));
+      }
+      if risky && rng.chance(1, 4) {
+        a["min_doc_count"] = json!(2 + rng.below(2));
+      }
+      with_subs(rng, a, depth, risky)
+    }
+    4 => {
+      let a = json!({"type": "filter", "filter": gen_filter(rng, 2)});
+      with_subs(rng, a, depth, risky)
+    }
+    5 | 6 => {
+      let n = 1 + rng.below(2);
+      let mut sources: Vec<Value> = Vec::new();
+      for i in 0..n {
+        if rng.chance(1, 2) {
+          sources.push(json!({"type": "terms", "name": format!("c{i}"), "field": pick_kw_field(rng)}));
+        } else {
+          // histogram sources over i64 columns yield no buckets (known finding): only when risky
+          let f = if risky && rng.chance(1, 3) { *rng.pick(&I64_FIELDS) } else { *rng.pick(&F64_FIELDS) };
+          sources.push(json!({"type": "histogram", "name": format!("c{i}"), "field": f, "interval": *rng.pick(&[0.5, 1.0, 2.5, 5.0])}));
+        }
+      }
+      let a = json!({"type": "composite", "sources": sources, "size": if rng.chance(1, 3) { 1 + rng.below(4) } else { 50 }});
+      with_subs(rng, a, depth, risky)
+    }
+    _ => {
+      let f = pick_kw_field(rng);
+      let mut a = json!({"type": "rare_terms", "field": f});
+      if rng.chance(1, 2) {
+        a["max_doc_count"] = json!(1 + rng.below(3));
+      }
+      if rng.chance(1, 4) {
+        a["size"] = json!(1 + rng.below(3));
+      }
+      with_subs(rng, a, depth, risky)
+    }
+  }
+}
+
+// ------------------------------------------------------------------ oracle
+
+pub fn range_key(r: &Value) -> Value {
+  match r.get("key").and_then(|k| k.as_str()) {
+    Some(k) => json!(k),
+    None => json!({"from": r.get("from").cloned().unwrap_or(Value::Null), "to": r.get("to").cloned().unwrap_or(Value::Null)}),
+  }
+}
+
+fn f64_loose(v: &Value) -> Option<f64> {
+  v.as_f64().or_else(|| v.as_str().and_then(|s| s.parse().ok()))
+}
+
+fn subs_of(agg: &Value) -> Vec<(String, Value)> {
+  agg.get("aggs").and_then(|a| a.as_object()).map(|m| m.iter().map(|(k, v)| (k.clone(), v.clone())).collect()).unwrap_or_default()
+}
+
+fn eval_filter(f: &Value, d: &Doc) -> bool {
+  let (k, b) = match f.as_object().and_then(|m| m.iter().next()) {
+    Some(x) => x,
+    None => return false,
+  };
+  match k.as_str() {
+    "KeywordEq" => {
+      let v = b["value"].as_str().unwrap_or("");
+      d.kws(b["field"].as_str().unwrap_or("")).iter().any(|x| x.eq_ignore_ascii_case(v))
+    }
+    "I64Range" | "F64Range" => {
+      let (lo, hi) = (b["min"].as_f64().unwrap_or(0.0), b["max"].as_f64().unwrap_or(0.0));
+      d.nums(b["field"].as_str().unwrap_or("")).iter().any(|x| *x >= lo && *x <= hi)
+    }
+    "And" => b.as_array().map(|a| a.iter().all(|x| eval_filter(x, d))).unwrap_or(false),
+    "Or" => b.as_array().map(|a| a.iter().any(|x| eval_filter(x, d))).unwrap_or(false),
+    "Not" => !eval_filter(b, d),
+    _ => false,
+  }
+}
+
+fn oracle_subs(agg: &Value, docs: &[&Doc]) -> Value {
+  let mut m = Map::new();
+  for (name, sub) in subs_of(agg) {
+    m.insert(name, oracle(&sub, docs));
+  }
+  Value::Object(m)
+}
+
+fn bucket_view(key: Value, agg: &Value, docs: &[&Doc]) -> Value {
+  // a histogram bucket no document fell into (it exists because of the bounds) has no child
+  // aggregations in the response; range buckets always carry theirs
+  let eager = matches!(agg["type"].as_str(), Some("range") | Some("date_range"));
+  let subs = if docs.is_empty() && !eager { json!({}) } else { oracle_subs(agg, docs) };
+  json!({"key": key, "count": docs.len(), "subs": subs})
+}
+
+fn num(x: f64) -> Value {
+  json!(x)
+}
+
+/// composite key order: strings bytewise, numbers numerically
+fn cmp_part(a: &Value, b: &Value) -> std::cmp::Ordering {
+  match (a, b) {
+    (Value::String(x), Value::String(y)) => x.as_bytes().cmp(y.as_bytes()),
+    (Value::Number(x), Value::Number(y)) => x.as_f64().unwrap().total_cmp(&y.as_f64().unwrap()),
+    (Value::String(_), _) => std::cmp::Ordering::Less,
+    (_, Value::String(_)) => std::cmp::Ordering::Greater,
+    _ => std::cmp::Ordering::Equal,
+  }
+}
+pub fn cmp_parts(a: &[Value], b: &[Value]) -> std::cmp::Ordering {
+  for (x, y) in a.iter().zip(b.iter()) {
+    let o = cmp_part(x, y);
+    if o != std::cmp::Ordering::Equal {
+      return o;
+    }
+  }
+  a.len().cmp(&b.len())
+}
+
+/// all composite buckets of `docs` in key order: (parts, docs of the bucket)
+pub fn composite_buckets<'a>(agg: &Value, docs: &[&'a Doc]) -> Vec<(Vec<Value>, Vec<&'a Doc>)> {
+  let sources = agg["sources"].as_array().cloned().unwrap_or_default();
+  let mut out: Vec<(Vec<Value>, Vec<&Doc>)> = Vec::new();
+  for d in docs {
+    let mut per: Vec<Vec<Value>> = Vec::new();
+    for s in &sources {
+      let f = s["field"].as_str().unwrap_or("");
+      let vals: Vec<Value> = if s["type"] == "terms" {
+        d.kws(f).iter().map(|x| json!(x)).collect()
+      } else {
+        let iv = s["interval"].as_f64().unwrap_or(1.0);
+        d.nums(f).iter().map(|v| num((v / iv).floor() * iv)).collect()
+      };
+      per.push(vals);
+    }
+    if per.iter().any(|v| v.is_empty()) {
+      continue;
+    }
+    let mut combos: Vec<Vec<Value>> = vec![vec![]];
+    for vals in &per {
+      let mut next = Vec::new();
+      for c in &combos {
+        for v in vals {
+          let mut c2 = c.clone();
+          c2.push(v.clone());
+          next.push(c2);
+        }
+      }
+      combos = next;
+    }
+    let mut seen: Vec<Vec<Value>> = Vec::new();
+    for c in combos {
+      if seen.iter().any(|s| cmp_parts(s, &c) == std::cmp::Ordering::Equal) {
+        continue;
+      }
+      seen.push(c.clone());
+      match out.iter_mut().find(|(k, _)| cmp_parts(k, &c) == std::cmp::Ordering::Equal) {
+        Some((_, ds)) => ds.push(*d),
+        None => out.push((c, vec![*d])),
+      }
+    }
+  }
+  out.sort_by(|a, b| cmp_parts(&a.0, &b.0));
+  out
+}
+
+pub fn composite_key_json(agg: &Value, parts: &[Value]) -> Value {
+  let mut m = Map::new();
+  for (s, p) in agg["sources"].as_array().cloned().unwrap_or_default().iter().zip(parts.iter()) {
+    m.insert(s["name"].as_str().unwrap_or("").to_string(), p.clone());
+  }
+  Value::Object(m)
+}
+
+pub fn composite_parts_of_key(agg: &Value, key: &Value) -> Option<Vec<Value>> {
+  let mut out = Vec::new();
+  for s in agg["sources"].as_array()? {
+    out.push(key.get(s["name"].as_str()?)?.clone());
+  }
+  Some(out)
+}
+
+/// Independent computation of the response over all matched live documents; every limit and
+/// threshold is applied once, to the global counts.  Returns the canonical view.
+pub fn oracle(agg: &Value, docs: &[&Doc]) -> Value {
+  let ty = agg["type"].as_str().unwrap_or("");
+  let field = agg["field"].as_str().unwrap_or("");
+  let missing_num = agg.get("missing").and_then(f64_loose);
+  match ty {
+    "stats" | "extended_stats" => {
+      let vals: Vec<f64> = docs.iter().flat_map(|d| d.nums_or(field, missing_num)).collect();
+      let n = vals.len();
+      if n == 0 {
+        let mut v = json!({"k": ty, "count": 0, "min": 0.0, "max": 0.0, "sum": 0.0, "avg": 0.0});
+        if ty == "extended_stats" {
+          v["variance"] = num(0.0);
+          v["std_deviation"] = num(0.0);
+        }
+        return v;
+      }
+      let sum: f64 = vals.iter().sum();
+      let mean = sum / n as f64;
+      let mn = vals.iter().cloned().fold(f64::INFINITY, f64::min);
+      let mx = vals.iter().cloned().fold(f64::NEG_INFINITY, f64::max);
+      let mut v = json!({"k": ty, "count": n, "min": mn, "max": mx, "sum": sum, "avg": mean});
+      if ty == "extended_stats" {
+        let var: f64 = vals.iter().map(|x| (x - mean) * (x - mean)).sum::<f64>() / n as f64;
+        v["variance"] = num(var);
+        v["std_deviation"] = num(var.sqrt());
+      }
+      v
+    }
+    "value_count" => {
+      let n: usize = docs.iter().map(|d| d.nums_or(field, missing_num).len()).sum();
+      json!({"k": "value", "value": n})
+    }
+    "cardinality" => {
+      let mut set: BTreeSet<String> = BTreeSet::new();
+      for d in docs {
+        if is_kw(field) {
+          let vs = d.kws(field);
+          if vs.is_empty() {
+            if let Some(m) = agg.get("missing").and_then(|m| m.as_str()) {
+              set.insert(m.to_string());
+            }
+          } else {
+            for v in vs {
+              set.insert(v.clone());
+            }
+          }
+        } else {
+          let m = if is_i64(field) { agg.get("missing").and_then(|m| m.as_i64()).map(|x| x as f64) } else { missing_num };
+          for v in d.nums_or(field, m) {
+            set.insert(format!("{:?}", v.to_bits()));
+          }
+        }
+      }
+      json!({"k": "value", "value": set.len()})
+    }
+    "percentiles" => {
+      let mut vals: Vec<f64> = docs.iter().flat_map(|d| d.nums_or(field, missing_num)).collect();
+      vals.sort_by(|a, b| a.total_cmp(b));
+      let ps: Vec<f64> = match agg.get("percents").and_then(|p| p.as_array()) {
+        Some(a) => a.iter().filter_map(|x| x.as_f64()).collect(),
+        None => vec![1.0, 5.0, 25.0, 50.0, 75.0, 95.0, 99.0],
+      };
+      let mut m = Map::new();
+      for p in ps {
+        let v = if vals.is_empty() {
+          0.0
+        } else {
+          // linear interpolation between closest ranks
+          let pos = p.clamp(0.0, 100.0) / 100.0 * (vals.len() - 1) as f64;
+          let lo = pos.floor() as usize;
+          let hi = pos.ceil() as usize;
+          if lo == hi {
+            vals[lo]
+          } else {
+            vals[lo] + (vals[hi] - vals[lo]) * (pos - lo as f64)
+          }
+        };
+        m.insert(format!("{p}"), num(v));
+      }
+      json!({"k": "table", "values": m})
+    }
+    "percentile_ranks" => {
+      let vals: Vec<f64> = docs.iter().flat_map(|d| d.nums_or(field, missing_num)).collect();
+      let mut m = Map::new();
+      for t in agg["values"].as_array().cloned().unwrap_or_default() {
+        let t = t.as_f64().unwrap_or(0.0);
+        let v = if vals.is_empty() { 0.0 } else { vals.iter().filter(|x| **x <= t).count() as f64 / vals.len() as f64 * 100.0 };
+        m.insert(format!("{t}"), num(v));
+      }
+      json!({"k": "table", "values": m})
+    }
+    "terms" | "rare_terms" => {
+      let missing = if ty == "terms" { agg.get("missing").and_then(|m| m.as_str()) } else { None };
+      let mut keys: BTreeMap<String, Vec<&Doc>> = BTreeMap::new();
+      for d in docs {
+        let vs = d.kws(field);
+        let mut mine: BTreeSet<String> = vs.iter().cloned().collect();
+        if vs.is_empty() {
+          if let Some(m) = missing {
+            mine.insert(m.to_string());
+          }
+        }
+        for k in mine {
+          keys.entry(k).or_default().push(*d);
+        }
+      }
+      let mut bs: Vec<(String, Vec<&Doc>)> = keys.into_iter().collect();
+      if ty == "terms" {
+        let mdc = agg.get("min_doc_count").and_then(|m| m.as_u64()).unwrap_or(1) as usize;
+        bs.retain(|(_, ds)| ds.len() >= mdc);
+        bs.sort_by(|a, b| b.1.len().cmp(&a.1.len()).then_with(|| a.0.as_bytes().cmp(b.0.as_bytes())));
+      } else {
+        let mx = agg.get("max_doc_count").and_then(|m| m.as_u64()).unwrap_or(1) as usize;
+        bs.retain(|(_, ds)| !ds.is_empty() && ds.len() <= mx);
+        bs.sort_by(|a, b| a.1.len().cmp(&b.1.len()).then_with(|| a.0.as_bytes().cmp(b.0.as_bytes())));
+      }
+      if let Some(sz) = agg.get("size").and_then(|s| s.as_u64()) {
+        bs.truncate(sz as usize);
+      }
+      let buckets: Vec<Value> = bs.iter().map(|(k, ds)| bucket_view(json!(k), agg, ds)).collect();
+      json!({"k": ty, "buckets": buckets})
+    }
+    "range" | "date_range" => {
+      let mut buckets = Vec::new();
+      for r in agg["ranges"].as_array().cloned().unwrap_or_default() {
+        let from = r.get("from").and_then(f64_loose);
+        let to = r.get("to").and_then(f64_loose);
+        let ds: Vec<&Doc> = docs
+          .iter()
+          .filter(|d| d.nums_or(field, missing_num).iter().any(|v| from.map(|f| *v >= f).unwrap_or(true) && to.map(|t| *v <= t).unwrap_or(true)))
+          .cloned()
+          .collect();
+        let key = if ty == "range" { range_key(&r) } else { date_range_key(&r) };
+        buckets.push(bucket_view(key, agg, &ds));
+      }
+      json!({"k": ty, "buckets": buckets})
+    }
+    "histogram" => {
+      let interval = agg["interval"].as_f64().unwrap_or(1.0);
+      let offset = agg.get("offset").and_then(|o| o.as_f64()).unwrap_or(0.0);
+      let bounds = |k: &str| agg.get(k).filter(|b| !b.is_null()).map(|b| (b["min"].as_f64().unwrap_or(0.0), b["max"].as_f64().unwrap_or(0.0)));
+      let ext = bounds("extended_bounds");
+      let hard = bounds("hard_bounds");
+      let mdc = agg.get("min_doc_count").and_then(|m| m.as_u64()).unwrap_or(if ext.is_some() || hard.is_some() { 0 } else { 1 }) as usize;
+      let id = |v: f64| ((v - offset) / interval).floor() as i64;
+      let mut map: BTreeMap<i64, Vec<&Doc>> = BTreeMap::new();
+      if let Some((lo, hi)) = ext.or(hard) {
+        let mut b = id(lo);
+        while b <= id(hi) {
+          map.entry(b).or_default();
+          b += 1;
+        }
+      }
+      for d in docs {
+        let mut mine = BTreeSet::new();
+        for v in d.nums_or(field, missing_num) {
+          if let Some((lo, hi)) = hard {
+            if v < lo || v > hi {
+              continue;
+            }
+          }
+          mine.insert(id(v));
+        }
+        for b in mine {
+          map.entry(b).or_default().push(*d);
+        }
+      }
+      let buckets: Vec<Value> = map.iter().filter(|(_, ds)| ds.len() >= mdc).map(|(b, ds)| bucket_view(num(*b as f64 * interval + offset), agg, ds)).collect();
+      json!({"k": ty, "buckets": buckets})
+    }
+    "filter" => {
+      let ds: Vec<&Doc> = docs.iter().filter(|d| eval_filter(&agg["filter"], d)).cloned().collect();
+      // the filter bucket always carries its child aggregations
+      json!({"k": "filter", "buckets": [{"key": Value::Null, "count": ds.len(), "subs": oracle_subs(agg, &ds)}]})
+    }
+    "composite" => {
+      let all = composite_buckets(agg, docs);
+      let after = agg.get("after").filter(|a| !a.is_null()).and_then(|a| composite_parts_of_key(agg, a));
+      let rest: Vec<&(Vec<Value>, Vec<&Doc>)> = all.iter().filter(|(k, _)| after.as_ref().map(|a| cmp_parts(k, a) == std::cmp::Ordering::Greater).unwrap_or(true)).collect();
+      let size = agg["size"].as_u64().unwrap_or(10) as usize;
+      let page: Vec<&(Vec<Value>, Vec<&Doc>)> = rest.iter().take(size).cloned().collect();
+      let after_key = if rest.len() > size { page.last().map(|(k, _)| composite_key_json(agg, k)).unwrap_or(Value::Null) } else { Value::Null };
+      let buckets: Vec<Value> = page.iter().map(|(k, ds)| bucket_view(composite_key_json(agg, k), agg, ds)).collect();
+      json!({"k": ty, "buckets": buckets, "after_key": after_key})
+    }
+    _ => json!({"k": "unsupported", "type": ty}),
+  }
+}
+
+fn date_range_key(r: &Value) -> Value {
+  // DateRangeCollector builds RangeBound{key, from: parse_date(from), to: parse_date(to)}
+  match r.get("key").and_then(|k| k.as_str()) {
+    Some(k) => json!(k),
+    None => json!({"from": r.get("from").and_then(f64_loose), "to": r.get("to").and_then(f64_loose)}),
+  }
+}
+
+// ------------------------------------------------------------------ canonical views
+
+/// implementation response (`AggregationResponse` serde JSON) → canonical view
+pub fn canon_impl(resp: &Value) -> Value {
+  let ty = resp["type"].as_str().unwrap_or("");
+  let subs_of_resp = |b: &Value| -> Value {
+    let mut m = Map::new();
+    if let Some(a) = b.get("aggregations").and_then(|a| a.as_object()) {
+      for (k, v) in a {
+        m.insert(k.clone(), canon_impl(v));
+      }
+    }
+    Value::Object(m)
+  };
+  match ty {
+    "stats" => json!({"k": ty, "count": resp["count"], "min": resp["min"], "max": resp["max"], "sum": resp["sum"], "avg": resp["avg"]}),
+    "extended_stats" => json!({"k": ty, "count": resp["count"], "min": resp["min"], "max": resp["max"], "sum": resp["sum"], "avg": resp["avg"],
+      "variance": resp["variance"], "std_deviation": resp["std_deviation"]}),
+    "value_count" | "cardinality" => json!({"k": "value", "value": resp["value"]}),
+    "percentiles" | "percentile_ranks" => json!({"k": "table", "values": resp["values"]}),
+    "filter" => json!({"k": "filter", "buckets": [{"key": Value::Null, "count": resp["doc_count"], "subs": subs_of_resp(resp)}]}),
+    "terms" | "rare_terms" | "range" | "date_range" | "histogram" | "date_histogram" | "composite" => {
+      let buckets: Vec<Value> = resp["buckets"]
+        .as_array()
+        .cloned()
+        .unwrap_or_default()
+        .iter()
+        .map(|b| json!({"key": b["key"], "count": b["doc_count"], "subs": subs_of_resp(b)}))
+        .collect();
+      let mut v = json!({"k": ty, "buckets": buckets});
+      if ty == "composite" {
+        v["after_key"] = resp.get("after_key").cloned().unwrap_or(Value::Null);
+      }
+      v
+    }
+    _ => json!({"k": "unsupported", "type": ty}),
+  }
+}
+
+fn rat(v: &Value) -> f64 {
+  let s = v.as_str().unwrap_or("0/1");
+  let mut it = s.split('/');
+  let n: f64 = it.next().unwrap_or("0").parse().unwrap_or(f64::NAN);
+  let d: f64 = it.next().unwrap_or("1").parse().unwrap_or(1.0);
+  n / d
+}
+
+/// model node (`nodeToJson`) → canonical view, using the request to name children and keys
+pub fn canon_model(node: &Value, agg: &Value) -> Value {
+  let ty = agg["type"].as_str().unwrap_or("");
+  match node["t"].as_str().unwrap_or("") {
+    "stats" => {
+      let mut v = json!({"k": ty, "count": node["count"], "min": rat(&node["min"]), "max": rat(&node["max"]), "sum": rat(&node["sum"]), "avg": rat(&node["avg"])});
+      if ty == "extended_stats" {
+        let var = rat(&node["variance"]);
+        v["variance"] = num(var);
+        v["std_deviation"] = num(var.sqrt());
+      }
+      v
+    }
+    "count" => json!({"k": "value", "value": node["n"]}),
+    "table" => {
+      let mut m = Map::new();
+      for r in node["rows"].as_array().cloned().unwrap_or_default() {
+        m.insert(format!("{}", rat(&r[0])), num(rat(&r[1])));
+      }
+      json!({"k": "table", "values": m})
+    }
+    "buckets" => {
+      let names: Vec<(String, Value)> = subs_of(agg); // serde_json maps are sorted by name
+      let interval = agg.get("interval").and_then(|x| x.as_f64()).unwrap_or(1.0);
+      let offset = agg.get("offset").and_then(|x| x.as_f64()).unwrap_or(0.0);
+      let ranges = agg.get("ranges").and_then(|r| r.as_array()).cloned().unwrap_or_default();
+      let key_json = |k: &Value| -> Value {
+        if let Some(s) = k.get("s") {
+          return s.clone();
+        }
+        if let Some(i) = k.get("i").and_then(|i| i.as_i64()) {
+          return match ty {
+            "histogram" => num(i as f64 * interval + offset),
+            "range" => ranges.get(i as usize).map(range_key).unwrap_or(Value::Null),
+            "date_range" => ranges.get(i as usize).map(date_range_key).unwrap_or(Value::Null),
+            _ => json!(i),
+          };
+        }
+        if let Some(ps) = k.get("p").and_then(|p| p.as_array()) {
+          let parts: Vec<Value> = ps.iter().map(|p| if let Some(s) = p.get("s") { s.clone() } else { num(rat(&p["q"])) }).collect();
+          return composite_key_json(agg, &parts);
+        }
+        Value::Null
+      };
+      let buckets: Vec<Value> = node["buckets"]
+        .as_array()
+        .cloned()
+        .unwrap_or_default()
+        .iter()
+        .map(|b| {
+          let mut m = Map::new();
+          for (child, (name, sub)) in b["subs"].as_array().cloned().unwrap_or_default().iter().zip(names.iter()) {
+            m.insert(name.clone(), canon_model(child, sub));
+          }
+          json!({"key": key_json(&b["key"]), "count": b["count"], "subs": m})
+        })
+        .collect();
+      let k = if ty == "filter" { "filter" } else { ty };
+      let mut v = json!({"k": k, "buckets": buckets});
+      if ty == "composite" {
+        v["after_key"] = if node["after"].is_null() { Value::Null } else { key_json(&node["after"]) };
+      }
+      v
+    }
+    other => json!({"k": "unsupported", "t": other}),
+  }
+}
+
+fn values_close(a: &Value, b: &Value) -> bool {
+  match (a, b) {
+    (Value::Number(x), Value::Number(y)) => idx::close(x.as_f64().unwrap_or(f64::NAN), y.as_f64().unwrap_or(f64::NAN), REL),
+    (Value::Array(x), Value::Array(y)) => x.len() == y.len() && x.iter().zip(y.iter()).all(|(p, q)| values_close(p, q)),
+    (Value::Object(x), Value::Object(y)) => x.len() == y.len() && x.iter().all(|(k, v)| y.get(k).map(|w| values_close(v, w)).unwrap_or(false)),
+    _ => a == b,
+  }
+}
+
+#[derive(Debug, Clone)]
+pub struct Diff {
+  /// names of the aggregations from the root to the blamed node
+  pub path: Vec<String>,
+  pub what: String,
+}
+
+/// first difference between two views of the aggregation `name`; the blamed node is the
+/// shallowest one whose own data (keys, counts, metric values) differ
+pub fn diff_view(name: &str, a: &Value, b: &Value) -> Option<Diff> {
+  let here = |what: String| Some(Diff { path: vec![name.to_string()], what });
+  if a["k"] != b["k"] {
+    return here(format!("kind {} vs {}", a["k"], b["k"]));
+  }
+  if let (Some(ba), Some(bb)) = (a.get("buckets").and_then(|x| x.as_array()), b.get("buckets").and_then(|x| x.as_array())) {
+    let shape = |bs: &Vec<Value>| -> Vec<Value> { bs.iter().map(|x| json!([x["key"], x["count"]])).collect() };
+    let (sa, sb) = (shape(ba), shape(bb));
+    if !values_close(&json!(sa), &json!(sb)) {
+      return here(format!("buckets {} vs {}", json!(sa), json!(sb)));
+    }
+    if !values_close(a.get("after_key").unwrap_or(&Value::Null), b.get("after_key").unwrap_or(&Value::Null)) {
+      return here(format!("after_key {} vs {}", a["after_key"], b["after_key"]));
+    }
+    for (x, y) in ba.iter().zip(bb.iter()) {
+      let (mx, my) = (x["subs"].as_object().cloned().unwrap_or_default(), y["subs"].as_object().cloned().unwrap_or_default());
+      let kx: Vec<&String> = mx.keys().collect();
+      let ky: Vec<&String> = my.keys().collect();
+      if kx != ky {
+        return here(format!("children of bucket {}: {:?} vs {:?}", x["key"], kx, ky));
+      }
+      for (n, vx) in mx.iter() {
+        if let Some(mut d) = diff_view(n, vx, &my[n]) {
+          d.path.insert(0, name.to_string());
+          return Some(d);
+        }
+      }
+    }
+    return None;
+  }
+  if !values_close(a, b) {
+    return here(format!("{} vs {}", a, b));
+  }
+  None
+}
+
+// ------------------------------------------------------------------ request-tree surgery
+
+fn node_at<'a>(aggs: &'a Value, path: &[String]) -> Option<&'a Value> {
+  let mut cur = aggs.get(&path[0])?;
+  for p in &path[1..] {
+    cur = cur.get("aggs")?.get(p)?;
+  }
+  Some(cur)
+}
+
+fn node_at_mut<'a>(aggs: &'a mut Value, path: &[String]) -> Option<&'a mut Value> {
+  let mut cur = aggs.get_mut(&path[0])?;
+  for p in &path[1..] {
+    cur = cur.get_mut("aggs")?.get_mut(p)?;
+  }
+  Some(cur)
+}
+
+fn remove_at(aggs: &mut Value, path: &[String]) {
+  if path.len() == 1 {
+    if let Some(m) = aggs.as_object_mut() {
+      m.remove(&path[0]);
+    }
+    return;
+  }
+  if let Some(parent) = node_at_mut(aggs, &path[..path.len() - 1]) {
+    if let Some(m) = parent.get_mut("aggs").and_then(|a| a.as_object_mut()) {
+      m.remove(&path[path.len() - 1]);
+    }
+  }
+}
+
+// ------------------------------------------------------------------ running the implementation
+
+pub struct Built {
+  pub _dir: tempfile::TempDir,
+  pub index: searchlite_core::api::Index,
+  /// live corpus documents per segment, in segment order (indices into the corpus)
+  pub segs: Vec<Vec<usize>>,
+}
+
+/// build one layout: `commits` is a list of commits, each a list of items
+/// `{"doc": i}` | `{"ghost": <doc json>}` (deleted by a later commit) |
+/// `{"stale": <doc json with the _id of a corpus doc added by a later commit>}`
+pub fn build_layout(docs: &[Value], layout: &Value) -> Result<Built, String> {
+  let dir = scratch();
+  let index = idx::create(dir.path(), &schema_json(), true)?;
+  let commits = layout["commits"].as_array().cloned().unwrap_or_default();
+  let mut segs = Vec::new();
+  let mut pending_delete: Vec<String> = Vec::new();
+  for c in &commits {
+    let mut w = index.writer().map_err(|e| e.to_string())?;
+    if !pending_delete.is_empty() {
+      w.delete_documents(&pending_delete).map_err(|e| format!("delete: {e}"))?;
+      pending_delete.clear();
+    }
+    let mut live = Vec::new();
+    for item in c.as_array().cloned().unwrap_or_default() {
+      if let Some(i) = item.get("doc").and_then(|i| i.as_u64()) {
+        w.add_document(&idx::doc(&docs[i as usize])).map_err(|e| format!("add: {e}"))?;
+        live.push(i as usize);
+      } else if let Some(g) = item.get("ghost") {
+        w.add_document(&idx::doc(g)).map_err(|e| format!("add ghost: {e}"))?;
+        pending_delete.push(g["_id"].as_str().unwrap_or("").to_string());
+      } else if let Some(g) = item.get("stale") {
+        w.add_document(&idx::doc(g)).map_err(|e| format!("add stale: {e}"))?;
+      }
+    }
+    w.commit().map_err(|e| format!("commit: {e}"))?;
+    segs.push(live);
+  }
+  if !pending_delete.is_empty() {
+    idx::delete_commit(&index, &pending_delete)?;
+  }
+  Ok(Built { _dir: dir, index, segs })
+}
+
+pub fn gen_layouts(rng: &mut Rng, docs: &[Value], n_layouts: usize) -> Vec<Value> {
+  let n = docs.len();
+  let mut layouts = Vec::new();
+  for li in 0..n_layouts {
+    // cut points
+    let cuts: Vec<usize> = match li {
+      0 => vec![],                 // one segment
+      1 => (1..n).collect(),       // one document per segment
+      _ => {
+        let k = 1 + rng.below(n.min(5).max(1));
+        let mut c: BTreeSet<usize> = BTreeSet::new();
+        for _ in 0..k {
+          if n > 1 {
+            c.insert(1 + rng.below(n - 1));
+          }
+        }
+        c.into_iter().collect()
+      }
+    };
+    let mut commits: Vec<Vec<Value>> = vec![vec![]];
+    for i in 0..n {
+      if cuts.contains(&i) {
+        commits.push(vec![]);
+      }
+      commits.last_mut().unwrap().push(json!({"doc": i}));
+    }
+    // dead documents: never in the one-segment layout's way of checking the plain path
+    if li >= 2 && rng.chance(1, 2) {
+      let ncommits = commits.len();
+      for g in 0..(1 + rng.below(2)) {
+        let c = rng.below(ncommits);
+        if c + 1 < ncommits && rng.chance(1, 2) {
+          // stale version of a document that a later commit adds again
+          let later: Vec<usize> = commits[c + 1..].iter().flatten().filter_map(|x| x.get("doc").and_then(|d| d.as_u64()).map(|d| d as usize)).collect();
+          let target = later[rng.below(later.len())];
+          let id = docs[target]["_id"].as_str().unwrap_or("").to_string();
+          let already = commits[c].iter().any(|x| x.get("stale").map(|s| s["_id"] == json!(id)).unwrap_or(false));
+          if !already {
+            let stale = gen_doc(rng, id);
+            let pos = rng.below(commits[c].len() + 1);
+            commits[c].insert(pos, json!({"stale": stale}));
+          }
+        } else {
+          let ghost = gen_doc(rng, format!("g{li}_{g}"));
+          let pos = rng.below(commits[c].len() + 1);
+          commits[c].insert(pos, json!({"ghost": ghost}));
+        }
+      }
+    }
+    layouts.push(json!({"commits": commits}));
+  }
+  layouts
+}
+
+pub fn matches_query(q: &Value, d: &Doc) -> bool {
+  match q["type"].as_str().unwrap_or("") {
+    "match_all" => true,
+    "term" => d.kws(q["field"].as_str().unwrap_or("")).iter().any(|x| x.eq_ignore_ascii_case(q["value"].as_str().unwrap_or(""))),
+    _ => false,
+  }
+}
+
+fn impl_views(reader: &searchlite_core::api::IndexReader, query: &Value, aggs: &Value) -> Result<(BTreeMap<String, Value>, Vec<String>), String> {
+  let req = json!({"query": query, "limit": 1000, "aggs": aggs});
+  match idx::search(reader, &req) {
+    idx::Outcome::Ok(v) => {
+      let mut m = BTreeMap::new();
+      if let Some(a) = v.get("aggregations").and_then(|a| a.as_object()) {
+        for (k, r) in a {
+          m.insert(k.clone(), canon_impl(r));
+        }
+      }
+      Ok((m, idx::hit_ids(&v)))
+    }
+    idx::Outcome::Err(e) => Err(format!("error: {e}")),
+    idx::Outcome::Panic(e) => Err(format!("panic: {e}")),
+  }
+}
+
+/// kinds occurring in an aggregation tree
+fn kinds_of(agg: &Value, depth: usize, out: &mut Vec<(String, usize)>) {
+  out.push((agg["type"].as_str().unwrap_or("").to_string(), depth));
+  for (_, s) in subs_of(agg) {
+    kinds_of(&s, depth + 1, out);
+  }
+}
+
+fn nonempty_view(v: &Value) -> bool {
+  if let Some(bs) = v.get("buckets").and_then(|b| b.as_array()) {
+    return bs.iter().any(|b| b["count"].as_u64().unwrap_or(0) > 0);
+  }
+  v.get("count").and_then(|c| c.as_u64()).unwrap_or(0) > 0 || v.get("value").and_then(|c| c.as_u64()).unwrap_or(0) > 0 || v.get("values").is_some()
+}
+
+/// candidate signature for a blamed node, from the request alone
+fn candidate_sig(node: &Value) -> Option<&'static str> {
+  match node["type"].as_str().unwrap_or("") {
+    "terms" if node.get("min_doc_count").and_then(|m| m.as_u64()).unwrap_or(1) >= 2 || node.get("size").map(|s| !s.is_null()).unwrap_or(false) => {
+      Some("aggs.threshold-per-segment.terms")
+    }
+    "rare_terms" => Some("aggs.threshold-per-segment.rare_terms"),
+    "histogram" if node.get("min_doc_count").and_then(|m| m.as_u64()).unwrap_or(0) >= 2 => Some("aggs.threshold-per-segment.histogram"),
+    "date_histogram" if node.get("min_doc_count").and_then(|m| m.as_u64()).unwrap_or(0) >= 2 => Some("aggs.threshold-per-segment.date_histogram"),
+    "composite" if node["sources"].as_array().map(|s| s.iter().any(|x| x["type"] == "histogram" && is_i64(x["field"].as_str().unwrap_or("")))).unwrap_or(false) => {
+      Some("composite.histogram-i64")
+    }
+    _ => None,
+  }
+}
+
+/// the node with its per-segment thresholds removed (limits that are applied once, after the
+/// merge, would give the same answer on the relaxed request)
+fn neutralize(node: &mut Value) {
+  match node["type"].as_str().unwrap_or("") {
+    "terms" => {
+      if let Some(m) = node.as_object_mut() {
+        m.remove("min_doc_count");
+        m.remove("size");
+      }
+    }
+    "rare_terms" => {
+      node["max_doc_count"] = json!(1_000_000);
+      if let Some(m) = node.as_object_mut() {
+        m.remove("size");
+      }
+    }
+    "histogram" | "date_histogram" => {
+      node["min_doc_count"] = json!(0);
+    }
+    _ => {}
+  }
+}
+
+impl Prop for C12 {
   fn id(&self) -> &'static str {
     "C12"
   }
   fn rule(&self) -> &'static str {
-    "stub"
+    "case = (corpus of 1..24 docs over keyword/i64/f64 single- and multi-valued fast fields, 3..5 segment layouts of it incl. one segment and one doc per segment, some with deleted ghosts / stale versions, match_all or term query, 1..2 aggregation trees to depth 3); every layout is searched and compared with the Rust oracle and with the Lean mechanism model; non-trivial = at least two matched documents, at least two layouts with different segment counts, and a non-empty expected response; distinct = distinct case JSON"
   }
-  fn count(&self, _tier: Tier) -> usize {
-    0
+  fn count(&self, tier: Tier) -> usize {
+    tier.pick(220, 10000)
   }
-  fn gen(&self, _rng: &mut Rng, _tier: Tier, _i: usize) -> Value {
-    json!(null)
+  fn gen(&self, rng: &mut Rng, _tier: Tier, i: usize) -> Value {
+    let n = 1 + rng.below(if rng.chance(1, 4) { 24 } else { 12 });
+    let docs: Vec<Value> = (0..n).map(|d| gen_doc(rng, format!("d{d}"))).collect();
+    let n_layouts = 3 + rng.below(3);
+    let layouts = gen_layouts(rng, &docs, n_layouts);
+    let query = if rng.chance(2, 3) {
+      json!({"type": "match_all"})
+    } else {
+      json!({"type": "term", "field": pick_kw_field(rng), "value": *rng.pick(&KW_VALUES[..3])})
+    };
+    // two thirds of the cases stay away from the parameters of the known findings so that the
+    // bulk of the run checks everything else
+    let risky = i % 3 == 2;
+    let mut aggs = Map::new();
+    for a in 0..(1 + rng.below(2)) {
+      aggs.insert(format!("a{a}"), gen_agg(rng, 1, risky));
+    }
+    json!({"docs": docs, "layouts": layouts, "query": query, "aggs": aggs})
   }
-  fn run_case(&self, _drv: &mut Driver, _case: &Value, _s: &mut Summary) {}
+
+  fn run_case(&self, drv: &mut Driver, case: &Value, s: &mut Summary) {
+    let docs_json = case["docs"].as_array().cloned().unwrap_or_default();
+    let docs: Vec<Doc> = docs_json.iter().map(parse_doc).collect();
+    let query = &case["query"];
+    let aggs = &case["aggs"];
+    let layouts = case["layouts"].as_array().cloned().unwrap_or_default();
+    let matched: Vec<&Doc> = docs.iter().filter(|d| matches_query(query, d)).collect();
+    let matched_ids: BTreeSet<String> = matched.iter().map(|d| d.id.clone()).collect();
+
+    // expected views
+    let agg_names: Vec<String> = aggs.as_object().map(|m| m.keys().cloned().collect()).unwrap_or_default();
+    let expected = |aggs: &Value| -> BTreeMap<String, Value> { aggs.as_object().map(|m| m.iter().map(|(k, a)| (k.clone(), oracle(a, &matched))).collect()).unwrap_or_default() };
+    let want = expected(aggs);
+
+    // build every layout once
+    let mut built: Vec<Built> = Vec::new();
+    for l in &layouts {
+      match build_layout(&docs_json, l) {
+        Ok(b) => built.push(b),
+        Err(e) => {
+          s.case(case, false);
+          s.count("skipped:layout-build-error");
+          s.notes.push(format!("layout build error: {e}"));
+          return;
+        }
+      }
+    }
+    let seg_counts: BTreeSet<usize> = built.iter().map(|b| b.segs.len()).collect();
+    let nontrivial = matched.len() >= 2 && seg_counts.len() >= 2 && want.values().any(nonempty_view);
+    s.case(case, nontrivial);
+    let mut kinds = Vec::new();
+    for (_, a) in aggs.as_object().cloned().unwrap_or_default() {
+      kinds_of(&a, 1, &mut kinds);
+    }
+    for (k, d) in &kinds {
+      s.count(&format!("kind:{k}"));
+      s.count(&format!("depth:{d}"));
+    }
+    s.count(if query["type"] == "match_all" { "query:match_all" } else { "query:term" });
+    s.add("layouts", built.len() as u64);
+    s.add("segments", built.iter().map(|b| b.segs.len() as u64).sum());
+
+    let mut readers = Vec::new();
+    for b in &built {
+      match b.index.reader() {
+        Ok(r) => readers.push(r),
+        Err(e) => {
+          s.fail("aggs.reader-error", "reader() failed on a freshly built layout", case, json!(e.to_string()));
+          return;
+        }
+      }
+    }
+
+    // ---- implementation runs
+    let mut got: Vec<BTreeMap<String, Value>> = Vec::new();
+    for (li, r) in readers.iter().enumerate() {
+      match impl_views(r, query, aggs) {
+        Ok((views, hits)) => {
+          let hit_set: BTreeSet<String> = hits.into_iter().collect();
+          if hit_set != matched_ids {
+            // matching is C04/C07 territory; without the same matched set C12 says nothing
+            s.count("skipped:matched-set-differs");
+            s.notes.push(format!("layout {li}: matched ids differ from the expected set"));
+            return;
+          }
+          got.push(views);
+        }
+        Err(e) => {
+          s.fail("aggs.search-error", "search with a valid aggregation request failed", case, json!({"layout": li, "error": e}));
+          return;
+        }
+      }
+    }
+
+    // ---- finder: every layout equals the independent computation
+    let mut work = aggs.clone();
+    let mut guard = 0;
+    let mut first_round = true;
+    loop {
+      guard += 1;
+      if guard > 8 {
+        break;
+      }
+      let want_w = if first_round { want.clone() } else { expected(&work) };
+      let mut found: Option<(usize, Diff, Value, Value)> = None;
+      'outer: for (li, r) in readers.iter().enumerate() {
+        let views = if first_round {
+          got[li].clone()
+        } else {
+          match impl_views(r, query, &work) {
+            Ok((v, _)) => v,
+            Err(e) => {
+              s.fail("aggs.search-error", "search with a valid aggregation request failed", case, json!({"layout": li, "error": e, "aggs": work}));
+              return;
+            }
+          }
+        };
+        for (name, w) in want_w.iter() {
+          let g = views.get(name).cloned().unwrap_or(Value::Null);
+          if let Some(d) = diff_view(name, &g, w) {
+            found = Some((li, d, g, w.clone()));
+            break 'outer;
+          }
+        }
+      }
+      first_round = false;
+      let Some((li, d, g, w)) = found else { break };
+      let node = node_at(&work, &d.path).cloned().unwrap_or(Value::Null);
+      let kind = node["type"].as_str().unwrap_or("?").to_string();
+      let observed = json!({"layout": li, "segments": built[li].segs.len(), "path": d.path, "node": node, "diff": d.what, "impl": g, "expected": w});
+      let mut sig = format!("aggs.mismatch.{kind}");
+      let mut what = format!("aggregation `{kind}` differs from the computation over all matched live documents");
+      if let Some(cand) = candidate_sig(&node) {
+        // predicate of the candidate signature, checked on this case
+        let ok = if cand == "composite.histogram-i64" {
+          // no buckets at all in every layout although documents carry values
+          let empty_everywhere = readers.iter().all(|r| {
+            impl_views(r, query, &work).map(|(v, _)| {
+              let mut cur = v.get(&d.path[0]).cloned().unwrap_or(Value::Null);
+              // walk down along the path through the first bucket that has the child
+              for p in &d.path[1..] {
+                let next = cur["buckets"].as_array().and_then(|bs| bs.iter().find_map(|b| b["subs"].get(p).cloned())).unwrap_or(Value::Null);
+                cur = next;
+              }
+              cur["buckets"].as_array().map(|b| b.is_empty()).unwrap_or(false)
+            }).unwrap_or(false)
+          });
+          empty_everywhere
+        } else {
+          // the one-segment layout is right, and without this node's thresholds every layout is
+          let mut relaxed = work.clone();
+          if let Some(n) = node_at_mut(&mut relaxed, &d.path) {
+            neutralize(n);
+          }
+          let want_r = expected(&relaxed);
+          let path_ok = |views: &BTreeMap<String, Value>, want: &BTreeMap<String, Value>| -> bool {
+            want.iter().all(|(name, w)| match diff_view(name, views.get(name).unwrap_or(&Value::Null), w) {
+              Some(d2) => !(d2.path.len() <= d.path.len() && d.path.starts_with(&d2.path)),
+              None => true,
+            })
+          };
+          let single_ok = built.iter().zip(readers.iter()).filter(|(b, _)| b.segs.len() == 1).all(|(_, r)| impl_views(r, query, &work).map(|(v, _)| path_ok(&v, &want_w)).unwrap_or(false));
+          let relaxed_ok = readers.iter().all(|r| impl_views(r, query, &relaxed).map(|(v, _)| path_ok(&v, &want_r)).unwrap_or(false));
+          single_ok && relaxed_ok && built[li].segs.len() > 1
+        };
+        if ok {
+          sig = cand.to_string();
+          what = match cand {
+            "composite.histogram-i64" => "composite aggregation with a histogram source over an i64 field returns no buckets".to_string(),
+            _ => format!("`{kind}` applies its doc-count threshold / size per segment before merging: wrong buckets when a key is spread over several segments"),
+          };
+        }
+      }
+      s.fail(&sig, &what, case, observed);
+      if sig.starts_with("aggs.mismatch") {
+        break;
+      }
+      // explained: take the node out and look for further, different mismatches
+      if sig == "composite.histogram-i64" {
+        remove_at(&mut work, &d.path);
+      } else if let Some(n) = node_at_mut(&mut work, &d.path) {
+        neutralize(n);
+      }
+      if work.as_object().map(|m| m.is_empty()).unwrap_or(true) {
+        break;
+      }
+    }
+
+    // ---- correspondence: mechanism model vs implementation, Spec vs oracle
+    let fields = field_kinds();
+    for (li, b) in built.iter().enumerate() {
+      let segs: Vec<Vec<Value>> = b.segs.iter().map(|seg| seg.iter().filter(|i| matched_ids.contains(&docs[**i].id)).map(|i| docs[*i].model_json(*i)).collect()).collect();
+      for name in &agg_names {
+        let agg = &aggs[name];
+        let m = drv.call("C12", json!({"op": "run", "fields": fields, "segs": segs, "agg": agg}));
+        if m["ok"] != json!(true) {
+          s.disagree("aggs.model-error", case, json!({"layout": li, "agg": name}), m);
+          return;
+        }
+        let mv = canon_model(&m["resp"], agg);
+        let iv = got[li].get(name).cloned().unwrap_or(Value::Null);
+        if let Some(d) = diff_view(name, &iv, &mv) {
+          s.disagree("aggs.run", case, json!({"layout": li, "path": d.path, "diff": d.what, "view": iv}), mv);
+          return;
+        }
+        if li == 0 {
+          let sv = canon_model(&m["spec"], agg);
+          if let Some(d) = diff_view(name, &sv, &want[name]) {
+            s.disagree("aggs.spec-vs-oracle", case, json!({"path": d.path, "diff": d.what, "oracle": want[name]}), sv);
+            return;
+          }
+        }
+      }
+    }
+  }
+
+  fn finish(&self, _tier: Tier, s: &mut Summary) {
+    s.notes.push("kinds generated and modelled: terms (size, min_doc_count, missing), rare_terms, range, histogram (offset, extended/hard bounds, missing, min_doc_count), stats, extended_stats, value_count, cardinality, percentiles/percentile_ranks (exact mode), filter, composite, sub-aggregations to depth 3".into());
+    s.notes.push("not generated (not modelled): significant_terms, sampling, shard_size, pipeline aggregations, t-digest mode of percentiles (> 256 values), duplicate range keys, MAX_BUCKETS".into());
+  }
 }
